@@ -31,9 +31,9 @@ Lemma fl_instrument : fl "Instrument::instrument" = Some []. Proof. comp. Qed.
 Lemma fl_with_collector : fl "WithCollector::with_collector" = Some []. Proof. comp. Qed.
 Lemma fl_span_mut : fl "Instrumented::span_mut" = Some []. Proof. comp. Qed.
 Lemma fl_query : forall q, fl (query_row q) = Some [].
-Proof. intros q. unfold query_row. destruct q as [|[p|p|]]; try comp; destruct p; comp. Qed.
+Proof. intros q. unfold query_row. destruct q as [|[p|p|]]; [comp | comp | | comp]. destruct p; comp. Qed.
 Lemma fl_inner : forall k, fl (inner_row k) = Some [].
-Proof. intros k. unfold inner_row. destruct k as [|[p|p|]]; try comp; destruct p; comp. Qed.
+Proof. intros k. unfold inner_row. destruct k as [|[p|p|]]; [comp | comp | | comp]. destruct p; comp. Qed.
 Lemma captures : captures_default model_shapes = true. Proof. comp. Qed.
 Lemma shape_poll : forall k, fut_shape model_shapes k "poll" =
   match k with
